@@ -1,19 +1,22 @@
 #!/bin/bash
 # Regression over all seeded changes: each is applied to a scratch worktree of /repo (never to /repo itself here) and the check of its
-# property is run against that tree (VERIF_REPO).  Writes notes/seeded_results.txt.  Expected: exit 1 for every seeded change.
+# property is run against that tree (VERIF_REPO).  Writes notes/seeded_results.txt.  Expected: exit 1 for every seeded property-breaking
+# change, exit 0 for every harmless-* refactoring.   usage: tools/seeded_sweep.sh [parallel jobs, default 3] [id prefix filter]
 cd "$(dirname "$0")/.."
 OUT=notes/seeded_results.txt
-: > $OUT
-for d in seeded/*/; do
-  id=$(basename $d); prop=$(python3 -c "import json;print(json.load(open('$d/meta.json'))['property'])")
+J=${1:-3}; FILTER=${2:-}
+one() {
+  d=$1; id=$(basename $d); prop=$(python3 -c "import json;print(json.load(open('$d/meta.json'))['property'])")
   WT=/tmp/sw_$id
-  git -C /repo worktree add -q $WT HEAD 2>/dev/null || { echo "$id worktree failed" >> $OUT; continue; }
+  git -C /repo worktree add -q $WT HEAD 2>/dev/null || { echo "$id worktree failed"; return; }
   if git -C $WT apply $(readlink -f $d/patch.diff) 2>/dev/null; then
-    VERIF_REPO=$WT timeout 1500 ./check $prop --tier quick > /tmp/sw_$id.out 2>&1; rc=$?
-    echo "$id $prop exit=$rc violations=$(grep -c '^VIOLATION' /tmp/sw_$id.out) $(grep -m1 '^VIOLATION' /tmp/sw_$id.out | sed 's/.*obligation=//' | cut -c1-110)" >> $OUT
+    VERIF_REPO=$WT VERIF_EVIDENCE_DIR=/tmp/sw_ev_$id timeout 3000 ./check $prop --tier quick > /tmp/sw_$id.out 2>&1; rc=$?
+    echo "$id $prop exit=$rc violations=$(grep -c '^VIOLATION' /tmp/sw_$id.out) $(grep -m1 '^VIOLATION' /tmp/sw_$id.out | sed 's/.*obligation=//' | cut -c1-130)"
   else
-    echo "$id $prop patch-does-not-apply" >> $OUT
+    echo "$id $prop patch-does-not-apply"
   fi
-  git -C /repo worktree remove --force $WT; rm -f /tmp/sw_$id.out
-done
-echo done >> $OUT
+  git -C /repo worktree remove --force $WT; rm -rf /tmp/sw_$id.out /tmp/sw_ev_$id
+}
+export -f one
+ls -d seeded/${FILTER}*/ | xargs -P $J -I{} bash -c 'one {}' > $OUT.tmp
+sort $OUT.tmp > $OUT; rm -f $OUT.tmp; echo done >> $OUT
